@@ -23,6 +23,7 @@ mod c11;
 mod c12;
 mod c13;
 mod c14;
+mod c15;
 mod sendsys;
 mod chan;
 
@@ -82,6 +83,7 @@ fn main() {
             "C12" => c12::replay(&v["replay"]),
             "C13" => c13::replay(&v["replay"]),
             "C14" => c14::replay(&v["replay"]),
+            "C15" => c15::replay(&v["replay"]),
             _ => {
                 eprintln!("no replay for {}", id);
                 std::process::exit(2);
@@ -111,6 +113,7 @@ fn main() {
             "C12" => c12::run(thorough),
             "C13" => c13::run(thorough),
             "C14" => c14::run(thorough),
+            "C15" => c15::run(thorough),
             other => {
                 eprintln!("unknown check {}", other);
                 2
